@@ -222,8 +222,10 @@ Definition do_jump (sp : ro_spec) (u : sub) : option (option sub) :=   (* None: 
   end.
 
 Definition set_rid (b : brel) (rid : string) : brel :=
+  (* the observed plan hash covers the whole release plan, rollout-id included: once the id is re-aligned the
+     BatchRelease's status counts as not yet observed *)
   {| br_batches := br_batches b; br_rid := rid; br_partition := br_partition b; br_ft := br_ft b; br_rollback_anno := br_rollback_anno b;
-     br_policy := br_policy b; br_consistent := br_consistent b; br_state_ready := br_state_ready b; br_batch := br_batch b;
+     br_policy := br_policy b; br_consistent := false; br_state_ready := br_state_ready b; br_batch := br_batch b;
      br_completed := br_completed b; br_deleting := br_deleting b; br_updated := br_updated b; br_updated_ready := br_updated_ready b |}.
 
 (* syncBatchRelease: copy the counters, re-align the BatchRelease's rollout-id with the observed one *)
@@ -425,6 +427,9 @@ Definition reconcile (sp : ro_spec) (st : ro_status) (w : wl) (br : option brel)
       | None => RPanic
       | Some true => ROut {| o_status := Some s; o_br := br; o_remove_progress_anno := false; o_finalizer := fin; o_requeue := false; o_err := false |}
       | Some false =>
+        (* an inconsistent workload status makes the reconcile wait (the finder would hand out an empty workload) *)
+        if wl_exists w && negb (wl_consistent w)
+        then ROut {| o_status := Some s; o_br := br; o_remove_progress_anno := false; o_finalizer := fin; o_requeue := true; o_err := false |} else
         let '(done, s1, br', anno) := do_finalising sp s w br FrDelete false in
         ROut {| o_status := Some (if done then set_term s1 (Some true) else s1); o_br := br'; o_remove_progress_anno := anno; o_finalizer := fin;
                 o_requeue := negb done; o_err := false |}
